@@ -9,6 +9,7 @@ import (
 	"strings"
 	"time"
 
+	"github.com/gorilla/websocket"
 	"github.com/vipnode/vipnode/v2/internal/verif/vh"
 	"github.com/vipnode/vipnode/v2/internal/verif/vsched"
 	"github.com/vipnode/vipnode/v2/pool"
@@ -326,19 +327,40 @@ func c09Wire() vh.Unit {
 			u.Violate("wire/closing-old-connection-unregistered-new-one", fmt.Sprintf("peer reply %s; reverse calls on the new connection: %v", r, h2.ReverseCalls()), nil)
 			return
 		}
-		// 3. connection 2 closes: later requests must find no connected host (eventually: the serve
-		// loop notices the close asynchronously)
-		h2.WS.Close()
-		ok := false
-		var last string
-		for i := 0; i < 25 && !ok; i++ {
-			time.Sleep(200 * time.Millisecond)
-			last = askPeers()
-			ok = strings.Contains(last, "no available host nodes") || strings.Contains(last, "no host nodes")
-		}
-		step("peer-after-last-connection-closed")
-		if !ok {
-			u.Violate("wire/closed-host-still-registered", fmt.Sprintf("5 s after the host's last connection closed a peer request still answers: %s", last), nil)
+		// 3. the host's last connection ends - abruptly, or with a close frame of any status: later
+		// requests must find no connected host (eventually: the serve loop notices asynchronously)
+		cur := h2
+		for vi, variant := range []string{"abrupt", "close-1000", "close-1001", "close-1011", "close-4000"} {
+			if vi > 0 {
+				cur = dialHost()
+				if r := connectHost(cur); strings.Contains(r, "error") {
+					u.Violate("wire/host-reconnect-failed", r, nil)
+					return
+				}
+				if r := askPeers(); !strings.Contains(r, host.NodeID) {
+					u.Violate("wire/live-host-not-called", fmt.Sprintf("after reconnecting (%s): peer reply %s", variant, r), nil)
+					return
+				}
+			}
+			if strings.HasPrefix(variant, "close-") {
+				var code int
+				fmt.Sscanf(variant, "close-%d", &code)
+				cur.WS.C.WriteControl(websocket.CloseMessage, websocket.FormatCloseMessage(code, "bye"), time.Now().Add(time.Second))
+				time.Sleep(50 * time.Millisecond)
+			}
+			cur.WS.Close()
+			ok := false
+			var last string
+			for i := 0; i < 25 && !ok; i++ {
+				time.Sleep(200 * time.Millisecond)
+				last = askPeers()
+				ok = strings.Contains(last, "no available host nodes") || strings.Contains(last, "no host nodes")
+			}
+			step("peer-after-last-connection-closed-" + variant)
+			if !ok {
+				u.Violate("wire/closed-host-still-registered", fmt.Sprintf("5 s after the host's last connection ended (%s) a peer request still answers: %s", variant, last), nil)
+				return
+			}
 		}
 		u.Sample("real binary: host on ws1 -> peer request -> host reconnects on ws2 -> ws1 closes -> peer request -> ws2 closes -> peer request")
 	}}
